@@ -438,7 +438,16 @@ def check_span_pairing(ctx, start: FuncInfo, end: FuncInfo, attr="parent", rule=
             "span = Span(); parent.push_child(span); parent = span - unconditional, at function level",
             "the start-tag handler no longer unconditionally creates one new span, pushes it and makes it the insertion point "
             f"(found top-level sequence {kinds}): tag nesting and the end-tag handler's one-pop-per-tag get out of step")
-  # statements between function start and the generic sequence may only be returns guarded by tag tests (ruby / rt special cases)
+  # a branch in front of the generic sequence that returns (the ruby / rt special cases) opens its own level: it makes some new element
+  # the insertion point before it returns - else the end tag of that start tag closes a level that was never opened
+  if ok:
+    for st in body[:seq[0][1]]:
+      if isinstance(st, ast.If) and st.body and isinstance(st.body[-1], ast.Return) and not any(isinstance(x, ast.Raise) for x in st.body):
+        enters = any(isinstance(x, ast.Assign) and any(unparse(t_) == selfattr for t_ in x.targets) for y in st.body for x in ast.walk(y))
+        ctx.check(enters, rule, f"{start.qualname}|the early return under `{short(st.test, 50)}` opens a level too", ctx.where(start.module, st),
+                  f"the branch sets {selfattr} before it returns",
+                  f"the start-tag handler returns under `{short(st.test, 60)}` without making a new element the insertion point, while the end-tag handler pops one level for every end tag: "
+                  "the end tag of such a start tag closes the enclosing element, and the text after it loses that element's styling")
   ctx.unit(end.module)
   # every path through the end-tag handler pops a level, except the paths on which the insertion point is known to
   # be the paragraph (nothing is open: the unmatched-tag warning) and explicit early returns
